@@ -187,3 +187,15 @@ def cv_obligations():
 
 def c11_obligations():
     return utils_obligations() + cv_obligations()
+
+
+CHAIN_FUNCS = ["Chain.predict", (os.path.join("verde", "base", "utils.py"), "check_data")]
+CHAIN_THEOREMS = ["src_Chain_predict_eq", "chain_predict_from_fold"]
+CHAIN_IMPORTS = "From Verde Require Import Model.Chain Proofs.PyLiteBridge."
+
+
+def chain_obligations():
+    """verde/chain.py Chain.predict against Model/Chain.v (property C06); to hook it:
+    `obligations = pylite_tie.chain_obligations` in harness/c06.py"""
+    return tie("ChainSrc", os.path.join("verde", "chain.py"), CHAIN_FUNCS, "pylite_chain.v.tmpl",
+               CHAIN_THEOREMS, CHAIN_IMPORTS)
